@@ -1,14 +1,15 @@
 #!/bin/bash
-# Evaluates every delivered seeded mutant under /tmp/mut-out/*/m*/ that has no eval.json yet,
-# at most $1 (default 3) at a time; loops until /tmp/mut-out/STOP exists.
+# Evaluates every delivered seeded mutant under $BASE/*/m*/ that has no eval.json yet,
+# at most $1 (default 3) at a time; loops until $BASE/STOP exists.
 PAR=${1:-3}
+BASE=${MUT_BASE:-/tmp/mut-out}
 cd /verif
-while [ ! -e /tmp/mut-out/STOP ]; do
-  for d in /tmp/mut-out/C*/m*/; do
+while [ ! -e $BASE/STOP ]; do
+  for d in $BASE/C*/m*/; do
     d=${d%/}
     [ -e "$d/patch.diff" ] && [ -e "$d/demo.rs" ] && [ -e "$d/meta.json" ] || continue
     [ -e "$d/eval.json" ] || [ -e "$d/.evaluating" ] && continue
-    while [ $(ls /tmp/mut-out/C*/m*/.evaluating 2>/dev/null | wc -l) -ge $PAR ]; do sleep 5; done
+    while [ $(ls $BASE/C*/m*/.evaluating 2>/dev/null | wc -l) -ge $PAR ]; do sleep 5; done
     touch "$d/.evaluating"
     p=$(basename $(dirname $d))
     ( python3 tools/seed_eval.py $p $d --all-checks > $d/eval.log 2>&1; rm -f $d/.evaluating ) &
